@@ -41,7 +41,7 @@
    attribute or start box (an attribute there restyles the last boxed run; see notes). *)
 From Coq Require Import List ZArith NArith Bool.
 From Astisub Require Import Kit.Base Kit.Str Gen.TtxTables Model.TtxRow Model.Ttx Model.TtxSpec.
-From Astisub Require Import Model.TtxStd Proofs.TtxStdProofs Proofs.FuelTtx Proofs.TtxTables Proofs.TtxTotal Proofs.TtxRowProofs Proofs.TtxCodec Proofs.TtxSteps Proofs.TtxStream Proofs.TtxWitness.
+From Astisub Require Import Model.TtxHam Proofs.TtxHamProofs Model.TtxStd Proofs.TtxStdProofs Proofs.FuelTtx Proofs.TtxTables Proofs.TtxTotal Proofs.TtxRowProofs Proofs.TtxCodec Proofs.TtxSteps Proofs.TtxStream Proofs.TtxWitness.
 Import ListNotations.
 Open Scope N_scope.
 
@@ -183,16 +183,39 @@ Theorem C06_enhancement_packets : forall fl mag0 pn0 mag pkt payload, 1 <= mag <
   /\ unselected_ok (3, enc_packet fl mag pkt payload) = true.
 Proof. exact enhancement_benign. Qed.
 Print Assumptions C06_enhancement_packets.
-Theorem C06_default_designation_packets : forall fl mag0 pkt dc rest, 1 <= mag0 <= 8 -> pkt = 28 \/ pkt = 29 -> dc = 0 \/ dc = 4 ->
-  neutral_unit mag0 (3, enc_packet fl mag0 pkt (ham84_enc dc :: 0 :: 0 :: 0 :: rest)) = true.
+Theorem C06_default_designation_packets : forall fl mag0 pkt dc d rest, 1 <= mag0 <= 8 -> dc = 0 \/ dc = 4 -> d < 2 ^ 18 ->
+  pkt = 29 \/ (pkt = 28 /\ N.land d 15 = 0) -> triplet_key d = 0 ->
+  neutral_unit mag0 (3, enc_packet fl mag0 pkt (desig_payload dc (ham2418_word d) rest)) = true.
 Proof. exact default_designation_neutral. Qed.
 Print Assumptions C06_default_designation_packets.
-Theorem C06_designation_packets : forall fl mag0 pkt dc t0 t1 t2 rest, 1 <= mag0 <= 8 -> dc = 0 \/ dc = 4 ->
-  pkt = 29 \/ (pkt = 28 /\ N.land (triplet_of [t0; t1; t2]) 15 = 0) ->
-  desig_ok mag0 (3, enc_packet fl mag0 pkt (ham84_enc dc :: t0 :: t1 :: t2 :: rest)) = true
-  /\ desig_of (3, enc_packet fl mag0 pkt (ham84_enc dc :: t0 :: t1 :: t2 :: rest)) = (pkt, triplet_of [t0; t1; t2]).
+(* Hamming 24/18 (Model/TtxHam.v, written from ETS 300 706 8.3; the reader's decoder teletextHamming2418Decode is tied to it
+   by the correspondence suites): the first triplet of X/28 and M/29 packets is decoded, not read raw (repair of the defect
+   "designation packets of a real broadcast stream are misread", notes/C06.md).  For all 2^18 data words: round trip, any one
+   of the 24 bits inverted is corrected, any two are rejected. *)
+Theorem C06_hamming2418_roundtrip : forall d, d < 2 ^ 18 -> ham2418_dec_word (ham2418_word d) = Some d.
+Proof. exact ham2418_word_roundtrip. Qed.
+Print Assumptions C06_hamming2418_roundtrip.
+Theorem C06_hamming2418_single_error : forall d p, d < 2 ^ 18 -> (p < 24)%nat ->
+  ham2418_dec_word (N.lxor (ham2418_word d) (2 ^ N.of_nat p)) = Some d.
+Proof. exact ham2418_word_single_error. Qed.
+Print Assumptions C06_hamming2418_single_error.
+Theorem C06_hamming2418_double_error : forall d p q, d < 2 ^ 18 -> (p < 24)%nat -> (q < 24)%nat -> p <> q ->
+  ham2418_dec_word (N.lxor (N.lxor (ham2418_word d) (2 ^ N.of_nat p)) (2 ^ N.of_nat q)) = None.
+Proof. exact ham2418_word_double_error. Qed.
+Print Assumptions C06_hamming2418_double_error.
+(* a designation packet as a standard-conformant encoder emits it (designation code 0 or 4, first triplet = 18 data bits
+   d under Hamming 24/18, each byte most significant bit first), also with one inverted bit, records the designation d *)
+Theorem C06_designation_packets : forall fl mag0 pkt dc d rest (err : option nat), 1 <= mag0 <= 8 -> dc = 0 \/ dc = 4 -> d < 2 ^ 18 ->
+  pkt = 29 \/ (pkt = 28 /\ N.land d 15 = 0) -> match err with Some p => (p < 24)%nat | None => True end ->
+  let w := match err with Some p => N.lxor (ham2418_word d) (2 ^ N.of_nat p) | None => ham2418_word d end in
+  desig_ok mag0 (3, enc_packet fl mag0 pkt (desig_payload dc w rest)) = true
+  /\ desig_of (3, enc_packet fl mag0 pkt (desig_payload dc w rest)) = (pkt, d).
 Proof. exact designation_unit. Qed.
 Print Assumptions C06_designation_packets.
+Theorem C06_damaged_designation_packets : forall pkt dc d rest p q, d < 2 ^ 18 -> (p < 24)%nat -> (q < 24)%nat -> p <> q ->
+  triplet_inert pkt (desig_payload dc (N.lxor (N.lxor (ham2418_word d) (2 ^ N.of_nat p)) (2 ^ N.of_nat q)) rest) = true.
+Proof. exact damaged_designation_inert. Qed.
+Print Assumptions C06_damaged_designation_packets.
 Theorem C06_parallel_mode_pages : forall fl mag0 pn0 mag h, 1 <= mag <= 8 -> mag <> mag0 -> hdr_ok h = true ->
   negb ((h_tens h =? 15) && (h_units h =? 15)) = true -> h_serial h = false ->
   benign mag0 pn0 (hdr_unit fl mag h) = true.
